@@ -27,6 +27,8 @@ func init() {
 		Rule{ID: "R20g", Doc: "pool-put hygiene", Floor: 12, AllVariants: true, Run: r20g},
 		Rule{ID: "R01c", Doc: "pool release precondition: non-nil, pool-born, capacity-preserving", Floor: 40, AllVariants: true, Run: r01c},
 		Rule{ID: "R20e", Doc: "a struct copied into its new owner is not released through the original", Floor: 1, AllVariants: true, Run: r20e},
+		Rule{ID: "R01g", Doc: "the decoder is given exactly the received bytes, never the rest of a recycled buffer (shared with C01)", Floor: 8, AllVariants: true, Run: r01g},
+		Rule{ID: "R20h", Doc: "pooled buffers are not handed to slice-retaining library calls and then released", Floor: 5, AllVariants: true, Run: r20h},
 	)
 }
 
@@ -1069,4 +1071,66 @@ func r20g(c *core.Ctx) {
 func isEmptyString(v ssa.Value) bool {
 	s, ok := core.ConstString(v)
 	return ok && s == ""
+}
+
+// ---- R20h: pooled buffers are not handed to library calls that keep them ----
+
+// retainingLib: dependency functions documented to keep the slice they are given (they do not copy it). A pooled
+// buffer passed to one of them must not be released while the receiving object can still use it — in this code base
+// every such buffer is released when the handler returns, i.e. before the library writes it out.
+var retainingLib = map[string]string{
+	"(*github.com/valyala/fasthttp.Response).SetBodyRaw":   "fasthttp keeps the slice and writes it after the handler returned",
+	"(*github.com/valyala/fasthttp.Request).SetBodyRaw":    "fasthttp keeps the slice",
+	"(*github.com/valyala/fasthttp.RequestCtx).SetBodyRaw": "fasthttp keeps the slice",
+	"bytes.NewBuffer":                                      "the Buffer takes ownership of the slice",
+	"bytes.NewReader":                                      "the Reader reads from the slice lazily",
+	"(*bytes.Reader).Reset":                                "the Reader reads from the slice lazily",
+}
+
+func r20h(c *core.Ctx) {
+	sum := bufFnSummaries(c)
+	rel := releaseSummaries(c)
+	nSites, nWrite := 0, 0
+	for _, fn := range c.SrcFuncs() {
+		for _, call := range core.Calls(fn) {
+			n := core.CallName(call)
+			why, retaining := retainingLib[n]
+			isBodyWrite := strings.HasSuffix(n, ").SetBody") || strings.HasSuffix(n, ").Write") || strings.HasSuffix(n, ").AsyncWrite")
+			if isBodyWrite {
+				nWrite++
+			}
+			if !retaining {
+				continue
+			}
+			nSites++
+			args := core.CallArgs(call)
+			for _, a := range args[1:] {
+				if _, isSlice := a.Type().Underlying().(*types.Slice); !isSlice {
+					continue
+				}
+				bi := bornOf(c, fn, a, call.Block(), sum, 0)
+				if !bi.ok {
+					c.OK(fmt.Sprintf("retained-not-pooled:%s:%s", core.FuncName(fn), core.ModName(n)), call.Pos(), fn, "a slice kept by a library call is not a pooled buffer", core.Expr(a))
+					continue
+				}
+				// released in this function (directly or deferred)?
+				released := ""
+				for _, rc := range core.Calls(fn) {
+					for _, ra := range releasedArgs(rc, rel) {
+						if sameBuffer(ra, a) {
+							released = c.Rel(rc.Pos())
+						}
+					}
+				}
+				c.Check(released == "", fmt.Sprintf("retained-then-released:%s:%s", core.FuncName(fn), core.ModName(n)), call.Pos(), fn,
+					"a pooled buffer handed to a library call that keeps it is not released by this function ("+why+")", "released at "+released)
+			}
+		}
+	}
+	// the rule has nothing to say about today's tree unless such calls appear; its instance floor counts the response
+	// write sites it scanned
+	c.Notes = append(c.Notes, fmt.Sprintf("R20h: %d calls of slice-retaining library functions, %d response write sites scanned", nSites, nWrite))
+	for i := 0; i < nWrite; i++ {
+		c.RuleCount["R20h"]++
+	}
 }
